@@ -611,7 +611,26 @@ pub fn process<I: BufRead, O: Write>(
                             msg: format!("Macro {} already defined", mcro),
                         });
                     }
-                    let buf = &caps[3];
+                    // The parameters of a function-like macro hide macros of the same name: they
+                    // are put aside before the body is expanded
+                    let mut hidden = String::new();
+                    let buf: &str = if let Some(params) = caps.get(2) {
+                        let mut char_constants = Vec::new();
+                        hidden = Context::mask_char_constants(&caps[3], &mut char_constants);
+                        for (i, v) in params.as_str().split(',').enumerate() {
+                            let vx = v.trim();
+                            if !vx.is_empty() {
+                                let re = Regex::new(&format!("\\b{}\\b", vx)).unwrap();
+                                hidden = re.replace_all(&hidden, format!("\u{2}{}\u{2}", i)).to_string();
+                            }
+                        }
+                        for (i, c) in char_constants.iter().enumerate().rev() {
+                            hidden = hidden.replace(&format!("\u{1}{}\u{1}", i), c);
+                        }
+                        &hidden
+                    } else {
+                        &caps[3]
+                    };
                     let mut value = context.replace_all(buf);
                     if context.runaway_expansion.replace(false) {
                         return Err(Error::Syntax {
@@ -644,7 +663,7 @@ pub fn process<I: BufRead, O: Write>(
                         let mut char_constants = Vec::new();
                         value = Context::mask_char_constants(&value, &mut char_constants);
                         if !params.is_empty() {
-                            for v in caps.get(2).unwrap().as_str().split(',') {
+                            for (i, v) in caps.get(2).unwrap().as_str().split(',').enumerate() {
                                 let vx = v.trim();
                                 if vx.is_empty() || rex.contains(&format!("(?P<{}>", vx)) {
                                     return Err(Error::Syntax {
@@ -654,8 +673,7 @@ pub fn process<I: BufRead, O: Write>(
                                         msg: format!("Empty or duplicate parameter name in macro {}", mcro),
                                     });
                                 }
-                                let re = Regex::new(&format!("\\b{}\\b", vx)).unwrap();
-                                value = re.replace_all(&value, format!("$${}", vx)).to_string();
+                                value = value.replace(&format!("\u{2}{}\u{2}", i), &format!("${}", vx));
                                 //rex += &format!("(?P<{}>[^,]*?),", vx);
                                 rex += &format!(
                                     r"(?P<{}>(?:[^,)(]|\((?:[^)(]|\((?:[^)(]|\((?:[^)(]|\([^)(]*\))*\))*\))*\))*),",
